@@ -92,6 +92,54 @@ def step_replay_case(seed, k, n_warm=12, n_steps=25):
             sim, step = nxt, step2
     return viol
 
+def tie_case(seed, k, replays=6):
+    """the second sentence where HIVE's own driver model decides: human drivers on shift who reposition on their own (idle for longer
+    than the time-out, or waiting at the home base) towards the search hex with most open requests, with TIES between hexes; no
+    controller at all.  The same saved state is stepped several times; all results must agree."""
+    import io, contextlib
+    from uuid import uuid4
+    import h3
+    from nrel.hive.resources import mock_lobster as ml
+    from nrel.hive.state.simulation_state import simulation_state_ops as sso
+    from nrel.hive.state.simulation_state.update.step_simulation import StepSimulation
+    from nrel.hive.state.vehicle_state.idle import Idle
+    rng = random.Random(f'tie|{seed}|{k}')
+    buf = io.StringIO()
+    with contextlib.redirect_stdout(buf), contextlib.redirect_stderr(buf):
+        env = ml.mock_env()
+        tmo = env.config.dispatcher.idle_time_out_seconds
+        base = h3.geo_to_h3(39.7539 + rng.uniform(-0.002, 0.002), -104.9740 + rng.uniform(-0.002, 0.002), 15)
+        ring = sorted(h3.k_ring(base, 60))
+        vehicles = []
+        for i in range(rng.randint(1, 3)):
+            vid = f'v{i}'
+            st = Idle(vehicle_id=vid, instance_id=uuid4(), idle_duration=tmo + rng.choice([1, 60, 600]))
+            vehicles.append(ml.mock_vehicle_from_geoid(vehicle_id=vid, geoid=rng.choice(ring), vehicle_state=st, driver_state=ml.mock_human_driver(available=True)))
+        sim = ml.mock_sim(vehicles=tuple(vehicles), sim_time=rng.choice([0, 600, 7200]))
+        # requests spread over several search hexes, the same number in each of the fullest ones
+        hexes = {}
+        for g in ring:
+            hexes.setdefault(h3.h3_to_parent(g, sim.sim_h3_search_resolution), []).append(g)
+        chosen = rng.sample(sorted(hexes), min(len(hexes), rng.randint(2, 4)))
+        per = rng.randint(1, 2)
+        reqs = []
+        for hx in chosen:
+            for j in range(per):
+                reqs.append(ml.mock_request_from_geoids(request_id=f'r{len(reqs)}', origin=rng.choice(hexes[hx]), destination=rng.choice(ring), departure_time=sim.sim_time))
+        sim = sso.add_entities(sim, tuple(reqs))
+        step = StepSimulation.from_tuple(())
+        first, _ = step.update(sim, env)
+        f0 = sha(canon(first))
+        for rep in range(replays):
+            again, _ = step.update(sim, env)
+            if sha(canon(again)) != f0:
+                d0 = {vid: [type(v.vehicle_state).__name__, v.geoid] for vid, v in first.vehicles.items()}
+                d1 = {vid: [type(v.vehicle_state).__name__, v.geoid] for vid, v in again.vehicles.items()}
+                diff = sorted(v for v in d0 if d0[v] != d1.get(v))
+                return [('saved_step_stepped_twice_differs', {'replay': rep + 1, 'search_hexes_with_requests': len(chosen), 'requests_per_hex': per,
+                                                              'vehicles_that_differ': diff[:4], 'first_vs_again': [(d0[v], d1.get(v)) for v in diff[:2]]})]
+    return []
+
 def engine(res, spec, tier, seed, extended=False):
     t0 = time.time()
     n = 60 if tier == 'quick' else 600
@@ -126,6 +174,19 @@ def engine(res, spec, tier, seed, extended=False):
                 seen.add(kind)
                 d = dict(d, scenario=k)
                 res.add_found(kind, d, {'engine': 'eng_c16', 'seed': seed, 'case': k, 'profile': 'step_replay', 'kind': kind, 'detail': d})
+    n_tie = 20 if tier == 'quick' else 200
+    for k in range(n_tie):
+        try:
+            viol = tie_case(seed, k)
+        except Exception as ex:
+            res.add_broken('harness', f'tie case {k} could not be run', repr(ex)[:400])
+            continue
+        res.cov['evaluations'] += 1
+        for kind, d in viol:
+            if kind not in seen:
+                seen.add(kind)
+                d = dict(d, tie_case=k)
+                res.add_found(kind, d, {'engine': 'eng_c16', 'seed': seed, 'case': k, 'profile': 'tie', 'kind': kind, 'detail': d})
     if not res.cov['samples']:
         res.cov['samples'].append({'engine': 'eng_c16', 'retained_states_rechecked': states, 'saved_controller_replays': n_sr})
     res.notes['eng_c16'] = {'retained_states': states, 'wall_s': round(time.time() - t0, 1)}
@@ -133,7 +194,9 @@ def engine(res, spec, tier, seed, extended=False):
 def replayer(payload):
     if payload.get('engine') != 'eng_c16':
         return None
-    if payload.get('profile') == 'step_replay':
+    if payload.get('profile') == 'tie':
+        viol = tie_case(payload['seed'], payload['case'])
+    elif payload.get('profile') == 'step_replay':
         viol = step_replay_case(payload['seed'], payload['case'])
     else:
         viol, _ = run_case(payload['seed'], payload['case'], 30, payload['profile'])
